@@ -34,7 +34,7 @@ package encryption
 
 // The CA bundle must contain a CA certificate.
 //@ contract validateHasCA
-//@   shape sig=(certs []*x509.Certificate,source string)( error);loops=;lits=0
+//@   shape sig=(certs []*x509.Certificate,source string)( error);loops=;lits=0;fv=
 //@   props C19
 //@   ensures result == nil <==> hasCA(certs)
 //@   assigns nothing
@@ -48,7 +48,7 @@ package encryption
 // Server role: with verification configured the listener requires AND verifies a client certificate against
 // the pool built from the configured CA; disabling verification is the only way to relax this.
 //@ contract GetServerTLSConfig
-//@   shape sig=(serverConfig TLSConfig,logger log.Logger)(tlsConfig *tls.Config,err error);loops=range;lits=3
+//@   shape sig=(serverConfig TLSConfig,logger log.Logger)(tlsConfig *tls.Config,err error);loops=range;lits=3;fv=
 //@   props C19
 //@   assigns nothing
 //@   ensures @disabled: !enabled(serverConfig) ==> tlsConfig == nil && err == nil
@@ -64,7 +64,7 @@ package encryption
 // Client role: with verification configured the proxy verifies the server chain (InsecureSkipVerify off),
 // against the configured name and, when a CA path is given, against the pool built from it.
 //@ contract GetClientTLSConfig
-//@   shape sig=(clientConfig TLSConfig)(tlsConfig *tls.Config,err error);loops=;lits=0
+//@   shape sig=(clientConfig TLSConfig)(tlsConfig *tls.Config,err error);loops=;lits=0;fv=
 //@   props C19
 //@   assigns nothing
 //@   ensures @disabled: !enabled(clientConfig) ==> tlsConfig == nil && err == nil
